@@ -1,7 +1,7 @@
 (* C08 -- interfaces partition the mesh edges; internal/external classification is exact.
    Statements only; proofs in Proofs/InterfacesProofs.v *)
 From Coq Require Import ZArith List Bool.
-From Forsys Require Import Model.PyList Model.Interfaces Proofs.InterfacesProofs Proofs.ShiftProofs.
+From Forsys Require Import Model.PyList Model.Interfaces Proofs.InterfacesProofs Proofs.ShiftProofs Proofs.UniqueProofs.
 Import ListNotations.
 Open Scope Z_scope.
 
@@ -26,6 +26,11 @@ Theorem C08_every_mesh_edge_in_an_interface : forall junc cells c a b,
   In c cells -> existsb junc (snd c) = true -> cyc_adjacent a b (snd c) ->
   exists f, In f (create_edges_new junc cells) /\ (adjacent a b f \/ adjacent b a f).
 Proof. exact mesh_edge_in_interface. Qed.
+(* ... and in no second one: for a cycle without repeated vertex every mesh edge of the cell lies in exactly one of the cell's interfaces *)
+Theorem C08_mesh_edge_in_exactly_one_interface : forall junc ids a b, NoDup ids -> existsb junc ids = true -> cyc_adjacent a b ids ->
+  exists i e, nth_error (cell_interfaces junc ids) i = Some e /\ adjacent a b e /\
+    forall j e', nth_error (cell_interfaces junc ids) j = Some e' -> adjacent a b e' -> j = i.
+Proof. exact mesh_edge_in_exactly_one_interface. Qed.
 Theorem C08_dedup_no_repeat : forall l, NoDupRev (dedup_ifaces l).
 Proof. exact dedup_no_repeat. Qed.
 Theorem C08_dedup_keeps_all : forall l e, In e l -> exists f, In f (dedup_ifaces l) /\ same_iface e f.
@@ -58,3 +63,4 @@ Print Assumptions C08_dedup_sound.
 Print Assumptions C08_three_predicates_agree.
 Print Assumptions C08_internal_characterisation.
 Print Assumptions C08_every_mesh_edge_in_an_interface.
+Print Assumptions C08_mesh_edge_in_exactly_one_interface.
